@@ -43,6 +43,7 @@ class State:
         s.labels = self.labels
         s.live_iters = list(self.live_iters)
         s.frames = list(self.frames)
+        s.unbound_when = dict(getattr(self, "unbound_when", {}))
         return s
 
     def assume(self, t):
